@@ -67,6 +67,10 @@ class RealEnv(KillState):
         self.thread_kill_check(what)
         return True
 
+    def damage(self, p):
+        b = open(p, "rb").read()
+        open(p, "wb").write(b[: len(b) // 2])
+
     def payload_bytes(self, ds, klass):
         b = good_bytes(ds)
         if klass == 1:
@@ -639,6 +643,54 @@ class Concurrent(Family):
             env.cleanup()
 
 
+class Refresh(Family):
+    name = "refresh-replaces-the-entry"
+    doc = ("download_even_if_available on an entry that differs from what is pinned now (the dataset was re-published under a new "
+           "checksum, or the cache file was cut short): what the refresh returns is what the cache holds afterwards; a kill "
+           "before a symbolic step leaves the old entry or the new one, never a mixture")
+    differential = False
+
+    def configs(self, tier):
+        return [{"gz": gz, "old": old, "kill": k} for gz in (False, True) for old in ("older-version", "damaged", "same") for k in (False, True)]
+
+    def run(self, ctx, inst, gz, old, kill):
+        env = make_env(ctx, gz)
+        try:
+            folder, fname = "fam", "ds-cache"
+            fp = final_path(env, folder, fname)
+            v1 = register(env, "dsV1")
+            v2 = v1 if old == "same" else register(env, "dsV2")
+            new_ds = "dsV1" if old == "same" else "dsV2"
+            with env.installed() as base:
+                st0, _ = call(base, v1, fname, folder, gzip=gz)
+                ctx.claim("warm-up-load-succeeds", st0 == "ok")
+                if old == "damaged":
+                    env.damage(fp)
+                env.restart()
+                if kill:
+                    env.kill_at = ctx.int("kill_at", 1, 14)
+                st, res = call(base, v2, fname, folder, download_even_if_available=True, delay=0.0, gzip=gz)
+                info = {"old": old, "st": st, "gz": gz, "steps": env.step}
+                after_new, after_old = env.cache_state(fp, new_ds), env.cache_state(fp, "dsV1")
+                if st == "ok":
+                    ctx.claim("refresh-returns-the-newly-verified-data", is_verified(ctx, env, res, new_ds), info)
+                    ctx.claim("refresh-stores-what-it-returned", after_new == "complete-verified", dict(info, state=after_new))
+                else:
+                    ctx.claim("kill-reaches-a-step-or-run-completes", kill and st == "killed", info)
+                    if old != "damaged":
+                        ctx.claim("after-kill:old-entry-or-new-entry", "complete-verified" in (after_new, after_old),
+                                  dict(info, state=after_new, state_old=after_old))
+                env.restart()
+                if st == "ok" or old != "damaged":
+                    st2, res2 = call(base, v2, fname, folder, gzip=gz)
+                    ok2 = st2 == "ok" and (is_verified(ctx, env, res2, new_ds) or (st != "ok" and is_verified(ctx, env, res2, "dsV1")))
+                    ctx.claim("later-load-returns-a-verified-entry", ok2, dict(info, st2=st2))
+                    if st == "ok":
+                        ctx.claim("later-load-returns-what-the-refresh-returned", st2 == "ok" and is_verified(ctx, env, res2, new_ds), dict(info, st2=st2))
+        finally:
+            env.cleanup()
+
+
 class ConcurrentKill(Family):
     name = "concurrent-loaders-one-killed"
     doc = ("two loaders of the same dataset under every interleaving of the calls that touch shared paths, while loader 0 is "
@@ -739,4 +791,4 @@ if __name__ == "__main__":
     ap = argparse.ArgumentParser()
     ap.add_argument("--tier", default="quick")
     a = ap.parse_args()
-    sys.exit(run_check("C19", "remote cache", [Faults(), Unpack(), DataHome(), Kills(), TwoDatasets(), Concurrent(), ConcurrentKill()], a.tier, META))
+    sys.exit(run_check("C19", "remote cache", [Faults(), Unpack(), DataHome(), Kills(), TwoDatasets(), Concurrent(), ConcurrentKill(), Refresh()], a.tier, META))
